@@ -234,6 +234,23 @@ def run(ctx: Ctx) -> int:
         ok = bool(dcalls) and ge.dominates(ge.cn(dcalls), ge.cn(leaving)) and all(c.args and root_name(c.args[0]) == "self" for c in dcalls)
         ctx.oblige("C09.b", ok, dcalls[0] if dcalls else err, f"every reported parse error first discards a pending `{a}` request (walking up to the root parser)" if ok else f"a parse error leaves a pending `{a}` request on the parser: the next successful parse prints the configuration and exits", fn=err, construct=f"discard {a} on error")
 
+        # every walk along parent_parser that handles the flag advances unconditionally and its loop
+        # condition does not depend on the flag (the request lives on the root parser only)
+        for fq, fn in repo.all_funcs():
+            if not (fn.name in discarders or any(call_leaf(c) == "hasattr" and len(c.args) == 2 and const_str(c.args[1]) == a for c in calls_in(fn))):
+                continue
+            for lp in [n for n in walk_local(fn) if isinstance(n, ast.While)]:
+                adv = [s for s in walk_local(lp) if isinstance(s, ast.Assign) and "parent_parser" in ast.unparse(s.value) and isinstance(s.targets[0], ast.Name)]
+                if not adv:
+                    continue
+                gl = ctx.cfg(fn)
+                test_flag = any(isinstance(x, ast.Constant) and x.value == a for x in ast.walk(lp.test))
+                starts_l = [t for (_, t, _l) in gl.branch_edges(lp, "t")]
+                head_l = gl.node_ids_of(lp)
+                rets_l = [r for r in walk_local(lp) if isinstance(r, ast.Return)]
+                ok = not test_flag and gl.must_pass(gl.cn(adv) + gl.cn(rets_l), starts_l, head_l, exclude_labels={"e"})
+                ctx.oblige("C09.b", ok, lp, f"the walk up the parser chain in {fn.name} visits every ancestor (condition independent of `{a}`, unconditional advance)" if ok else f"the walk up the parser chain in {fn.name} stops at the first parser without `{a}`: a request stored on the root parser is not reached from a sub-parser", fn=fn)
+
     # ---------------- C09.c / C09.d (E5) ---------------------------------------
     eff = get_effects(ctx)
     n_c = 0
